@@ -169,13 +169,13 @@ def r3_multi_borrow(ctx):
                     g = (f.get("gargs") or ["?"])[0]
                     return Sym("id:%s" % cls.get(g, g))
                 if k == "std::collections::hash::set::HashSet::new":
-                    env["__set"] = frozenset()
+                    interp.mstate["set"] = frozenset()
                     return Sym("set")
                 if k == "std::collections::hash::set::HashSet::insert":
-                    s = env.get("__set", frozenset())
+                    s = interp.mstate.get("set", frozenset())
                     v = args[1]
                     fresh = v not in s
-                    env["__set"] = s | {v}
+                    interp.mstate["set"] = s | {v}
                     return fresh
                 if k == R + "get_mut":
                     g = (f.get("gargs") or ["?"])[0]
@@ -211,12 +211,12 @@ def r3_multi_borrow(ctx):
             if k == "better_any::Tid::id":
                 return Sym("id:%s" % (f.get("gargs") or ["?"])[0])
             if k == "std::collections::hash::set::HashSet::new":
-                env["__set"] = frozenset()
+                interp.mstate["set"] = frozenset()
                 return Sym("set")
             if k == "std::collections::hash::set::HashSet::insert":
-                s = env.get("__set", frozenset())
+                s = interp.mstate.get("set", frozenset())
                 fresh = args[1] not in s
-                env["__set"] = s | {args[1]}
+                interp.mstate["set"] = s | {args[1]}
                 return fresh
             if k == R + "get_mut":
                 g = (f.get("gargs") or ["?"])[0]
